@@ -56,6 +56,7 @@ type WorkerOut struct {
 	Counters     map[string]int64          `json:"counters"`
 	PerScenario  map[string]int            `json:"per_scenario"`
 	SimNanos     int64                     `json:"sim_nanos"`
+	SimSeconds   float64                   `json:"sim_seconds"`
 	Steps        int64                     `json:"steps"`
 	Samples      []map[string]any          `json:"samples"`
 	Findings     []Finding                 `json:"findings"`
@@ -180,7 +181,7 @@ func WorkerMain(t *testing.T, eng Engine) {
 		res := eng.Execute(t, plan)
 		out.Runs++
 		out.PerScenario[sc]++
-		out.SimNanos += res.SimNanos
+		out.SimSeconds += float64(res.SimNanos) / 1e9
 		out.Steps += int64(res.Steps)
 		for k, v := range res.Counters {
 			out.Counters[k] += v
